@@ -1121,6 +1121,100 @@ def suite_C13():
 
 
 
+def suite_C15():
+    """bound: every numeric literal form (decimal up to 60 digits, 0x/0b/0o, NrDIGITS for every radix 2..36, 64r, q / f / i / j suffixes,
+    ., e, e-, e+) over a pool of values, every string escape form over a pool of code points, and 3000 pseudo-random token soups /
+    mutated programs (seeded, so the same programs every run) that must produce a value or a catchable error, never a crash.
+    A case with expected value None only requires 'no crash'."""
+    import random
+    cases = []
+    k = [0]
+
+    def lit_case(src, expected, **meta):
+        esc = src.replace('\\', '\\\\').replace('"', '\\"')
+        cases.append(('t%d' % k[0], 'eval("%s")' % esc, expected, dict(meta, source=src)))
+        k[0] += 1
+    digs = '0123456789abcdefghijklmnopqrstuvwxyz'
+
+    def rend(n, base):
+        s_ = ''
+        while True:
+            s_ = digs[n % base] + s_
+            n //= base
+            if n == 0:
+                return s_
+    values = [0, 1, 7, 35, 36, 255, 256, 1295, 2**31, 2**63 - 1, 2**63, 2**64 + 1, 10**30 + 7, 3**100]
+    for n in values:
+        lit_case(str(n), str(n), what='decimal integer literal', value=n)
+        lit_case('000' + str(n), str(n), what='leading zeros', value=n)
+        lit_case('0x' + rend(n, 16), str(n), what='0x literal', value=n)
+        lit_case('0X' + rend(n, 16).upper(), str(n), what='0X literal, upper-case digits', value=n)
+        lit_case('0b' + rend(n, 2), str(n), what='0b literal', value=n)
+        lit_case('0o' + rend(n, 8), str(n), what='0o literal', value=n)
+        lit_case(str(n) + 'q', str(n), what='rational literal', value=n)
+        for base in range(2, 37):
+            lit_case('%dr%s' % (base, rend(n, base)), str(n), what='NrDIGITS', value=n, radix=base)
+        lit_case('36r' + rend(n, 36).upper(), str(n), what='NrDIGITS, upper-case digits', value=n, radix=36)
+    lit_case('64rAQID', str(66051), what='base-64 literal')
+    b64 = 'ABCDEFGHIJKLMNOPQRSTUVWXYZabcdefghijklmnopqrstuvwxyz0123456789+/'
+    for txt in ['A', 'B', 'Z', 'a', 'z', '0', '9', '+', '/', 'BA', '9z', 'zz99', 'AB09az', b64, b64[::-1]]:
+        v = 0
+        for ch in txt:
+            v = v * 64 + b64.index(ch)
+        lit_case('64r' + txt, str(v), what='base-64 literal', digits=txt)
+    lit_case('64r-_', str(62 * 64 + 63), what='base-64 literal, URL-safe alphabet')
+    for src in ['1r5', '37r5', '2r2', '8r9', '16rfg', '12abc', '1.5.2', '1_000', '1e', '5 f', '0b2', '0o8', '0xg']:
+        lit_case(src, 'ERR', what='malformed numeric literal is refused')
+    for src, exp in [('1.5', '1.5'), ('1.', '1'), ('0.1', '0.1'), ('1e3', '1000'), ('1E3', '1000'), ('1e-3', '0.001'), ('1e+3', '1000'), ('1.5e2', '150'), ('1.5e+2', '150'),
+                     ('2.5e-1', '0.25'), ('2f', '2'), ('1e400', 'inf'), ('0.30000000000000004', '0.30000000000000004'), ('123456789.125', '123456789.125'),
+                     ('2i', '0+2i'), ('1.5i', '0+1.5i'), ('3j', '0+3i'), ('9007199254740993f', '9007199254740992'), ('0.5e1', '5')]:
+        lit_case(src, exp, what='float / imaginary literal')
+    for src, exp in [('1/2', '1/2'), ('3q/4', '3/4'), ('6q/4q', '3/2')]:
+        lit_case(src, exp, what='rational arithmetic on literals')
+    # string escapes: the value is the text the escapes spell
+    for cp in [0x41, 0x7f, 0xe9, 0xff, 0x100, 0x4e16, 0xd7ff, 0xe000, 0xffff, 0x10000, 0x1f600, 0x10ffff]:
+        for op, cl in [('{', '}'), ('(', ')'), ('[', ']'), ('<', '>')]:
+            lit_case('ord("\\u%s%x%s")' % (op, cp, cl), str(cp), what='\\u escape', code_point=cp, brackets=op + cl)
+        if cp <= 0xff:
+            lit_case('ord("\\x%02x")' % cp, str(cp), what='\\x escape', code_point=cp)
+    for src, exp in [('"a\\nb"', 'a\nb'), ('len("\\t\\r\\0\\\\")', '4'), ("'it\\'s'", "it's"), ('"say \\"hi\\""', 'say "hi"'), ('R"raw\\n"', 'raw\\n'), ('len(R"raw\\n")', '5'),
+                     ('list(B"ab\\x01")', '[97, 98, 1]'), ('""', ''), ('"multi\nline"', 'multi\nline'), ('len("multi\nline")', '10'), ('"\\u{e9}z"', '\u00e9z'), ('1 # trailing', '1')]:
+        if '\n' in exp:
+            continue
+        lit_case(src, exp, what='string / bytes / raw literal')
+    for src in ['"\\u{fffffffff}"', '"\\u{ffffffffffffffffffffff}"', '"\\q"', '"\\x4"', '"\\xzz"', '"\\u{110000}"', '"\\u{d800}"', '"\\u{}x"', '"unterminated', "'unterminated", '# comment only', '"\\u{e9"', 'R"x', 'B"\\u{100}"']:
+        lit_case(src, None, what='malformed literal: any outcome but a crash')
+    # totality: token soups and mutated programs
+    toks = ['1', '0', '2', '(', ')', '[', ']', '{', '}', ',', ';', ':', ':=', '=', '+', '-', '*', '/', '%', '^', '<', '>', '==', '!', '.', '..', '...', '\\', '->', 'x', 'y', 'f', 'if',
+            'else', 'for', '<-', 'yield', 'switch', 'case', 'try', 'catch', 'throw', '"a"', '"', "'", '\\u{', '}', '1.5', '1e', '1e-', '1e+', '0x', '0b1', '36r', '2r1', '_', '$', 'and',
+            'or', 'not', 'null', 'struct', 'import', 'every', 'while', 'literally', 'freeze', 'lambda', '@', '#', '~', '&', '|', '!!', '!?', '!%', '+=', '-.', '|.', '++', 'til',
+            'to', 'by', 'map', 'len', '[1,2]', '(1)', '{1:2}', 'x[0]', 'x[1:]', 'x.y', 'f(', 'F"{', '}"', 'F"{x', '#(', '\n', '99999999999999999999999999', '\u00e9', '\U0001f409']
+    rng = random.Random(20260923)
+    seeds = ['x := [1, 2, 3]; for (a <- x) yield a * 2', 'f := \\a, b -> a + b; f(1, 2)', 'switch (3) case 1 -> "a" case _ -> "b"', 'try throw 1 catch e -> e',
+             'F"{1 + 2} and {3:5}"', 'struct P(a, b); P(1, 2)', '{1: 2, 3: 4}[1]', 'x := 5; x += 1; x', '[1, 2, 3][1:]', '1 < 2 < 3 and not 0']
+    for i in range(3000):
+        if i % 3 == 0:
+            src = list(rng.choice(seeds))
+            for _ in range(rng.randint(1, 3)):
+                pos = rng.randrange(len(src) + 1)
+                act = rng.random()
+                if act < 0.4 and src:
+                    del src[min(pos, len(src) - 1)]
+                elif act < 0.8:
+                    src.insert(pos, rng.choice('()[]{}"\'\\,;:=+-*/<>!.#$_ 019eExq'))
+                else:
+                    src[pos:pos] = list(rng.choice(toks))
+            src = ''.join(src)
+        else:
+            src = ' '.join(rng.choice(toks) for _ in range(rng.randint(1, 9)))
+        esc = src.replace('\\', '\\\\').replace('"', '\\"').replace('\n', '\\n')
+        # the lambda and the loop keep break / continue / return inside the case
+        cases.append(('s%d' % k[0], '(for (vzz <- [1]) yield (\\ -> (eval("%s"); 0))())' % esc, None, dict(source=src, what='any text parses or is refused, never a crash')))
+        k[0] += 1
+    return '', cases
+
+
+
 def _climb_reference(e0, toks, tighter, chain, run):
     """precedence climbing (the Python twin of specs/chain.rs)"""
     def climb(lhs, i, left):
@@ -1371,7 +1465,7 @@ def suite_C14X():
 
 
 SUITES = {'C03': suite_C03, 'C06': suite_C06, 'C07': suite_C07, 'C08': suite_C08, 'C09': suite_C09, 'C10': suite_C10, 'C11': suite_C11,
-          'C12': suite_C12, 'C13': suite_C13, 'C14': suite_C14, 'C14X': suite_C14X, 'C16': suite_C16}
+          'C12': suite_C12, 'C13': suite_C13, 'C14': suite_C14, 'C15': suite_C15, 'C14X': suite_C14X, 'C16': suite_C16}
 # a crash is a C14 violation whichever suite produced it
 C14_SUITES = ['C14', 'C10', 'C11', 'C07', 'C08', 'C06', 'C14X']
 
@@ -1386,7 +1480,7 @@ def evaluate(binp, prop, limit=3):
         total += len(cases)
         for cid, expr, exp, meta in cases:
             got = outs.get(cid, 'MISSING')
-            bad = (got == 'PANIC' or got == 'TIMEOUT') if prop == 'C14' else (got != exp)
+            bad = (got == 'PANIC' or got == 'TIMEOUT') if (prop == 'C14' or exp is None) else (got != exp)
             if bad:
                 fails.append(dict(suite=nm, expr=expr, expected=exp, actual=got, input=meta, setup=setup.strip()))
                 if len(fails) >= limit:
@@ -1421,7 +1515,7 @@ def rerun(wit, repo):
         print('program :', wit['expr'])
         print('expected:', wit['expected'])
         print('actual  :', got)
-        bad = (got in ('PANIC', 'TIMEOUT')) if wit.get('property') == 'C14' else (got != wit['expected'])
+        bad = (got in ('PANIC', 'TIMEOUT')) if (wit.get('property') == 'C14' or wit['expected'] is None) else (got != wit['expected'])
         print('=> the real code', 'STILL VIOLATES the clause on this input' if bad else 'now agrees with the reference on this input')
         return 1 if bad else 0
     finally:
